@@ -11,7 +11,9 @@ package main
 
 import (
 	"encoding/hex"
+	"errors"
 	"fmt"
+	"io"
 	"strings"
 
 	te "github.com/ricochet1k/termemu"
@@ -387,4 +389,163 @@ func orDash(s string) string {
 		return "-"
 	}
 	return s
+}
+
+
+// ---------------------------------------------------------------- C16/C08 the token reader's functions vs lean/TM/Reader.lean
+
+type srcEntry struct {
+	data []byte
+	err  bool
+}
+
+// errSource is a scripted io.Reader: one entry per Read call (what does not fit stays for the
+// next call); an entry may return an error together with its last bytes; exhausted = EOF.
+type errSource struct{ script []srcEntry }
+
+var errInjectedRead = errors.New("injected read error")
+
+func (s *errSource) Read(p []byte) (int, error) {
+	if len(s.script) == 0 {
+		return 0, io.EOF
+	}
+	e := &s.script[0]
+	n := copy(p, e.data)
+	if n < len(e.data) {
+		e.data = e.data[n:]
+		return n, nil
+	}
+	fails := e.err
+	s.script = s.script[1:]
+	if fails {
+		return n, errInjectedRead
+	}
+	return n, nil
+}
+
+// readerFunctionCheck drives a real GraphemeReader (rune mode) and the model reader with the same
+// source script and the same calls (ReadPrintableBytes with various width limits, ReadByte) and
+// compares what every call returns (text, width, merge flag, error) and the buffer indices and
+// capacity afterwards.
+func readerFunctionCheck(c *specialCtx, d *driver, r *prng, idx int) {
+	var script string
+	defer func() {
+		if p := recover(); p != nil {
+			c.violation("reader-panic", fmt.Sprintf("the token reader panicked: %v; source script %s", p, truncate(script, 400)), script)
+		}
+	}()
+	// the stream: printable runs (ASCII, 2/3/4-byte, wide, 3- and 4-cell characters), controls, a few invalid bytes
+	var stream []byte
+	n := 20 + r.intn(300)
+	if r.chance(1, 6) {
+		n = pick(r, []int{4090, 4096, 4100, 8190, 8200, 9000})
+	}
+	for len(stream) < n {
+		switch r.intn(10) {
+		case 0:
+			stream = append(stream, pick(r, []string{"\n", "\r", "\x1b", "\x1b[", "\x07", "\x7f", "\t", "\x00"})...)
+		case 1:
+			stream = append(stream, pick(r, []string{"\xff", "\xc3", "\xe2\x82", "\xf0\x9f\x90", "\x80", "\xed\xa0\x80"})...)
+		case 2, 3:
+			stream = append(stream, pick(r, []string{"é", "ñ", "中", "한", "🐹", "🎉", "⸺", "⸻", "Ｗ", "\u0301"})...)
+		default:
+			for k, m := 0, 1+r.intn(30); k < m; k++ {
+				stream = append(stream, byte(' '+r.intn(95)))
+			}
+		}
+	}
+	src := &errSource{}
+	var parts []string
+	for off := 0; off < len(stream); {
+		k := 1 + r.intn(12)
+		switch r.intn(8) {
+		case 0:
+			k = 1
+		case 1:
+			k = 3000 + r.intn(7000)
+		case 2:
+			src.script = append(src.script, srcEntry{nil, false}) // a read that returns nothing
+			parts = append(parts, "-")
+		case 3:
+			if r.chance(1, 6) {
+				src.script = append(src.script, srcEntry{nil, true}) // an error without data; the source goes on afterwards
+				parts = append(parts, "-!")
+			}
+		}
+		if off+k > len(stream) {
+			k = len(stream) - off
+		}
+		fails := r.chance(1, 25)
+		src.script = append(src.script, srcEntry{append([]byte(nil), stream[off:off+k]...), fails})
+		p := hex.EncodeToString(stream[off : off+k])
+		if fails {
+			p += "!"
+		}
+		parts = append(parts, p)
+		off += k
+	}
+	script = strings.Join(parts, ",")
+	if script == "" {
+		script = "none"
+	}
+	gr := te.NewGraphemeReaderWithMode(src, te.TextReadModeRune)
+	d.send("rdr init " + script)
+	errs := 0
+	for k := 0; k < 2*len(stream)+20 && errs < 4; k++ {
+		c.mu.Lock()
+		c.st.Steps++
+		c.mu.Unlock()
+		var impl, model, what string
+		if r.chance(1, 4) {
+			b, err := gr.ReadByte()
+			st, en, cp := te.VerifReaderState(gr)
+			bs := "-"
+			if err == nil {
+				bs = fmt.Sprint(int(b))
+			} else {
+				errs++
+			}
+			impl = fmt.Sprintf("%s %d %d %d", bs, st, en, cp)
+			model = d.ask("rdr byte")
+			what = "ReadByte()"
+		} else {
+			maxW := pick(r, []int{0, 1, 2, 3, 4, 5, 7, 80, 5000})
+			s, w, merge, err := gr.ReadPrintableBytes(maxW)
+			st, en, cp := te.VerifReaderState(gr)
+			if err != nil {
+				errs++
+			}
+			if merge {
+				c.violation("reader-merge", fmt.Sprintf("ReadPrintableBytes(%d) reports a merge run in rune mode (script %s)", maxW, truncate(script, 300)), script)
+				return
+			}
+			impl = fmt.Sprintf("%s %d %d %d %d %d", orDash(hex.EncodeToString([]byte(s))), w, b2i(err != nil), st, en, cp)
+			model = d.ask(fmt.Sprintf("rdr printable %d", maxW))
+			what = fmt.Sprintf("ReadPrintableBytes(%d)", maxW)
+			if err == nil && s == "" {
+				// nothing printable: the parser takes the next byte as a control byte
+				b, e2 := gr.ReadByte()
+				st, en, cp := te.VerifReaderState(gr)
+				bs := "-"
+				if e2 == nil {
+					bs = fmt.Sprint(int(b))
+				} else {
+					errs++
+				}
+				if impl == model {
+					impl = fmt.Sprintf("%s %d %d %d", bs, st, en, cp)
+					model = d.ask("rdr byte")
+					what = "ReadByte() after an empty run"
+				} else {
+					d.ask("rdr byte")
+				}
+			}
+		}
+		if impl != model {
+			c.violation("reader-function", fmt.Sprintf("call %d %s: reader returned [%s], model [%s] (text width error start end capacity); source script %s", k, what, impl, model, truncate(script, 400)), script)
+			return
+		}
+	}
+	c.count(fmt.Sprint("readerfn", idx%97))
+	c.tally("reader-function-scripts")
 }
